@@ -258,7 +258,7 @@ func genShared(c *simkit.Choices) *shared {
 	s := &shared{holderOpt: sharedHolderOption(), foldOpt: gotype.Folders(innerFolder(15))}
 	// the first shared value always contains model.Inner, the type for which
 	// tasks register different custom folders/unfolders
-	inner := []string{"Holder", "Nested", "Tagged", "Inner", "[]*Inner", "Holder", "Wide"}
+	inner := []string{"Holder", "Nested", "Tagged", "Inner", "[]*Inner", "Holder", "Wide", "HolderInline", "HolderInline"}
 	te0 := model.TypeByName(inner[c.N(len(inner))])
 	s.types = append(s.types, te0)
 	s.vals = append(s.vals, te0.Gen(c))
@@ -678,13 +678,34 @@ func genOp(c *simkit.Choices, sh *shared, taskIdx int) *op {
 	case 6: // per-instance custom unfolder for a shared Go type, inside a shared enclosing type
 		variant := taskIdx*2 + c.N(2)
 		s := model.GenText(c, 10)
+		// the enclosing type: Holder (Inner as field, slice, pointer, map) or
+		// HolderInline (Inner behind an inlined / nested / pointed-to / listed /
+		// mapped sub-struct)
+		inline := c.N(3) != 0
+		want := 5
+		if inline {
+			want = 8
+		}
+		str := func(x string) simkit.Ev { return simkit.Ev{K: simkit.KStr, S: s + x} }
+		key := func(k string) simkit.Ev { return simkit.Ev{K: simkit.KKey, S: k} }
+		oS, oE := simkit.Ev{K: simkit.KObjStart, I: -1}, simkit.Ev{K: simkit.KObjEnd}
+		aS, aE := simkit.Ev{K: simkit.KArrStart, I: -1}, simkit.Ev{K: simkit.KArrEnd}
+		evs := []simkit.Ev{oS, key("a"), str(""), key("l"), aS, str("1"), str("2"), aE,
+			key("p"), str("3"), key("m"), oS, key("k"), str("4"), oE, oE}
+		if inline {
+			evs = []simkit.Ev{oS, key("x"), {K: simkit.KStr, S: "plain"}, key("a"), str(""), key("l"), aS, str("1"), str("2"), aE,
+				key("deep"), oS, key("a"), str("3"), key("l"), aS, str("4"), aE, oE,
+				key("ps"), oS, key("a"), str("5"), oE,
+				key("ls"), aS, oS, key("a"), str("6"), oE, aE,
+				key("ms"), oS, key("k"), oS, key("a"), str("7"), oE, oE, oE}
+		}
 		return &op{desc: OpDesc{Kind: "custom-unfolder", Variant: variant},
 			check: func(r string, _ []interface{}) string {
 				if strings.Contains(r, "err=") {
 					return "the stream of strings is refused although this unfolder registered a string unfolder for model.Inner"
 				}
-				if strings.Count(r, marker("u", variant)) != 5 {
-					return "result does not carry this unfolder's own marker " + marker("u", variant) + " in all 5 Inner positions"
+				if strings.Count(r, marker("u", variant)) != want {
+					return fmt.Sprintf("result does not carry this unfolder's own marker %s in all %d Inner positions", marker("u", variant), want)
 				}
 				if m := foreignMarker(r, "u", variant); m != "" {
 					return "result carries the marker of ANOTHER unfolder's custom unfolder: " + m
@@ -693,23 +714,26 @@ func genOp(c *simkit.Choices, sh *shared, taskIdx int) *op {
 			},
 			run: func(yield func()) []interface{} {
 				return guard(func() []interface{} {
-					var to model.Holder
-					u, err := gotype.NewUnfolder(&to, gotype.Unfolders(innerUnfolder(variant)))
+					var toH model.Holder
+					var toI model.HolderInline
+					var to interface{} = &toH
+					if inline {
+						to = &toI
+					}
+					u, err := gotype.NewUnfolder(to, gotype.Unfolders(innerUnfolder(variant)))
 					if err != nil {
 						return []interface{}{err}
 					}
 					t := yieldingTap(u, yield)
-					evs := []simkit.Ev{{K: simkit.KObjStart, I: -1}, {K: simkit.KKey, S: "a"}, {K: simkit.KStr, S: s},
-						{K: simkit.KKey, S: "l"}, {K: simkit.KArrStart, I: -1}, {K: simkit.KStr, S: s + "1"}, {K: simkit.KStr, S: s + "2"}, {K: simkit.KArrEnd},
-						{K: simkit.KKey, S: "p"}, {K: simkit.KStr, S: s + "3"},
-						{K: simkit.KKey, S: "m"}, {K: simkit.KObjStart, I: -1}, {K: simkit.KKey, S: "k"}, {K: simkit.KStr, S: s + "4"}, {K: simkit.KObjEnd},
-						{K: simkit.KObjEnd}}
 					for _, e := range evs {
 						if err := simkit.Emit(t, e, false); err != nil {
 							return []interface{}{err}
 						}
 					}
-					return []interface{}{to}
+					if inline {
+						return []interface{}{toI}
+					}
+					return []interface{}{toH}
 				})
 			}}
 	case 8: // ONE shared option value + a per-task custom unfolder for a type inside its cell
